@@ -617,3 +617,128 @@ func edgesWhere(fn *ssa.Function, pred func(an.Fact) bool) []an.Edge {
 	}
 	return out
 }
+
+// ---- effects: what a helper does, not what it is called ------------------------------------------------------------
+//
+// Several clauses speak about small helpers of the pinned tree ("addToDeferredPQ", "tryUpdateReadyState"). A refactoring may
+// inline such a helper into its callers, rename it or turn a method into a function. An effect is therefore defined by the
+// instruction that does the work (direct), closed under "a call of a function of the same package that does it on every path
+// to its returns". Where the effect acts on an object (the item pushed on a heap) direct returns it; through a wrapper the
+// object is the argument bound to the parameter the wrapper passes on.
+type effect struct {
+	direct func(in ssa.Instruction) (bool, ssa.Value)
+	fns    map[*ssa.Function]int // wrapper -> index into Params of the object (-1: none / not a parameter)
+	sites  []ssa.Instruction     // the direct sites found in the package
+}
+
+func newEffect(c *an.Ctx, pkg string, direct func(in ssa.Instruction) (bool, ssa.Value)) *effect {
+	e := &effect{direct: direct, fns: map[*ssa.Function]int{}}
+	var cands []*ssa.Function
+	for _, g := range c.P.RepoFuncs() {
+		if g.Pkg == nil || g.Pkg.Pkg.Path() != an.ModPath+"/"+pkg || len(g.Blocks) == 0 {
+			continue
+		}
+		cands = append(cands, g)
+		an.Instrs(g, func(in ssa.Instruction) {
+			if ok, _ := direct(in); ok {
+				e.sites = append(e.sites, in)
+			}
+		})
+	}
+	for changed := true; changed; {
+		changed = false
+		for _, g := range cands {
+			if _, done := e.fns[g]; done {
+				continue
+			}
+			var objs []ssa.Value
+			any := false
+			an.Instrs(g, func(in ssa.Instruction) {
+				if ok, o := e.at(in); ok {
+					any = true
+					objs = append(objs, o)
+				}
+			})
+			if !any {
+				continue
+			}
+			q := &an.PathQ{Fn: g, StartEntry: true, Sink: an.IsReturn, Cut: func(in ssa.Instruction, _ *an.PathState) bool { return e.is(in) }}
+			if _, f := q.Find(); f {
+				continue
+			}
+			idx := -1
+			for i := range g.Params {
+				all := len(objs) > 0
+				for _, o := range objs {
+					if o == nil || !isParam(o, g, i) {
+						all = false
+					}
+				}
+				if all {
+					idx = i
+				}
+			}
+			e.fns[g] = idx
+			changed = true
+		}
+	}
+	return e
+}
+
+// at: does in perform the effect, and on which object (nil when unknown).
+func (e *effect) at(in ssa.Instruction) (bool, ssa.Value) {
+	if _, isGo := in.(*ssa.Go); isGo {
+		return false, nil
+	}
+	if ok, o := e.direct(in); ok {
+		return true, o
+	}
+	if ci, ok := in.(ssa.CallInstruction); ok {
+		if f := an.StaticCallee(ci); f != nil {
+			if idx, ok := e.fns[f]; ok {
+				if idx >= 0 && idx < len(ci.Common().Args) {
+					return true, ci.Common().Args[idx]
+				}
+				return true, nil
+			}
+		}
+	}
+	return false, nil
+}
+
+func (e *effect) is(in ssa.Instruction) bool {
+	ok, _ := e.at(in)
+	return ok
+}
+
+// on: in performs the effect on an object satisfying objOK.
+func (e *effect) on(in ssa.Instruction, objOK func(ssa.Value) bool) bool {
+	ok, o := e.at(in)
+	return ok && o != nil && objOK(o)
+}
+
+// fieldAddrOf: v (through conversions/boxing) is the address of field f of some object.
+func fieldAddrOf(v ssa.Value, f *types.Var) bool {
+	fa, ok := an.Strip(v).(*ssa.FieldAddr)
+	return ok && f != nil && an.FieldOf(fa) == f
+}
+
+// heapInsert: the effect "insert into the deadline heap stored in field Channel.<field>": heap.Push(&c.deferredPQ, item) for
+// the container/heap based deferred queue, c.inFlightPQ.Push(msg) for the hand-written in-flight queue.
+func heapInsert(c *an.Ctx, field string) *effect {
+	f := c.P.Field("nsqd", "Channel", field)
+	inPush := c.P.Func("nsqd", "(*inFlightPqueue).Push")
+	return newEffect(c, "nsqd", func(in ssa.Instruction) (bool, ssa.Value) {
+		call, ok := in.(*ssa.Call)
+		if !ok || f == nil {
+			return false, nil
+		}
+		if an.StdCallee(call, "container/heap", "Push") && len(call.Call.Args) == 2 && fieldAddrOf(call.Call.Args[0], f) {
+			return true, an.Strip(call.Call.Args[1])
+		}
+		if inPush != nil && an.IsCallTo(call, inPush) && len(call.Call.Args) == 2 && fieldAddrOf(call.Call.Args[0], f) {
+			return true, call.Call.Args[1]
+		}
+		return false, nil
+	})
+}
